@@ -5,6 +5,10 @@ props=[json.loads(l) for l in open('/verif/properties.jsonl')]
 ids=[p['id'] for p in props]
 TECH="bounded symbolic execution of the Go SSA of the real code (own engine gosym) with SMT-decided path conditions and assertions (z3 5.1 bit-vectors); counterexamples replayed natively"
 claimed={
+ "C12": dict(
+   text="Bounded symbolic model checking of generator.FileManager.Feed/BuildResponse from go/ssa: for every history of 3 submissions (named file / named patch / unnamed patch in every combination, fed in one call or split at every position) with names, contents and insertion points as solver-enumerated choices and a FREE byte in every unnamed patch text, the output equals an in-harness reference model of the statement (each kept file once in submission order, patches at every occurrence of their point in submission order, no marker left, identical duplicates dropped with their patches, first holder keeps its name, unnamed patch without target is an error); a second harness feeds 2..3 plain files named from {a.go,a_1.go,a_2.go} and requires pairwise distinct output names.",
+   note="The name/content/point dimension is a finite choice space enumerated through the solver (exhaustive within the stated alphabet); the solver's own contribution is the patch bytes. The insertion-point scan is a regexp call-out on concrete contents. Known finding KF-C12-rename-collides-with-submitted-name is reported as KNOWN-FINDING. Outside: longer histories, persistence to disk (C19).",
+   ref="6 C12"),
  "C04": dict(
    text="Bounded symbolic model checking of the in-process diagnosis pipeline CircleDetect -> CheckAll -> ResolveSymbols (sdk/invoke.go order) on a three-file include diamond: whenever an in-harness reference predicate says the program is broken (reference that names no type / value / service written as a FREE byte string, duplicate globals of every kind pair with free names in any file, duplicate field ids or names in struct/union/exception/argument/throws lists with free i32 ids, enum with free names and i64 numbers incl. the int32 range, oneway that returns or throws, second union default, typedef cycles with and without a constant selecting through them, include cycles of 1..3 files) the pipeline returns an error, never panics, overflows the stack or exceeds the step bound.",
    note="Only the error direction is asserted. Outside the technique: the process itself (exit status of the binary, 'no file written', hangs of the real process, message text), syntax errors (C03's error branch), constant/default type checks inside the Go backend (need BuildScope + text/template), command-line parsing. Bounds: one free reference at a time (<=4..6 bytes), 3 typedefs, <=3 files.",
